@@ -63,6 +63,7 @@ Qed.
 
 Inductive expr :=
 | ELoad (x : name)                 (* Name in Load context *)
+| EAttr (x : name) (p : list name) (* x.a.b.c : attribute chain rooted at a name *)
 | ENil                             (* constants *)
 | ECons (e1 e2 : expr)             (* any operator / call / attribute / subscript / display:
                                       sub-expressions, each possibly skipped *)
@@ -116,27 +117,87 @@ Fixpoint ctargets (c : comp) : list name :=
   | CEval _ c' => ctargets c'
   end.
 
+(* ------------------------------------------------------------------ the namespace as objects *)
+
+(* The globals of a generated function map names to objects; modules, classes and the attribute
+   holders the library creates have *static* attribute tables (as captured when the entry point
+   becomes callable): evaluating `mod.sub.Cls` on them either reaches an object or is an
+   AttributeError of the library's own making.  Everything else (instances, functions, input
+   values) is opaque: attribute access on it is the business of the input, not of the namespace. *)
+Inductive okind := KModule | KClass | KHolder | KOpaque.
+Record obj := mkObj { okind_of : okind; oattrs : list (name * N) }.
+Record world := mkW { wglob : list (name * N); wheap : list (N * obj) }.
+
+Fixpoint assoc {A} (k : N) (l : list (N * A)) : option A :=
+  match l with
+  | [] => None
+  | (k', v) :: r => if N.eqb k k' then Some v else assoc k r
+  end.
+
+Definition static_kind (k : okind) : bool := match k with KOpaque => false | _ => true end.
+
+(* Some (Some o): the chain reaches object o;  Some None: the chain leaves the static part
+   (nothing to judge);  None: an attribute is missing on a module / class / holder *)
+Fixpoint walk (h : list (N * obj)) (o : N) (p : list name) : option (option N) :=
+  match p with
+  | [] => Some (Some o)
+  | a :: r =>
+      match assoc o h with
+      | None => Some None
+      | Some ob =>
+          if static_kind (okind_of ob) then
+            match assoc a (oattrs ob) with
+            | Some o' => walk h o' r
+            | None => None
+            end
+          else Some None
+      end
+  end.
+
+Definition resolve (W : world) (x : name) (p : list name) : option (option N) :=
+  match assoc x (wglob W) with
+  | None => Some None                 (* a global whose object was not captured: opaque *)
+  | Some o => walk (wheap W) o p
+  end.
+
+Definition chain_ok (W : world) (x : name) (p : list name) : bool :=
+  match resolve W x p with Some _ => true | None => false end.
+
+(* does a load of x fall through every frame to the globals? *)
+Definition falls_global (en : env) (x : name) : bool :=
+  forallb (fun f => negb (mem x (bound f)) && negb (strict f && mem x (decl f))) en.
+
+(* the object a chain denotes when its root is a global *)
+Definition denote (W : world) (en : env) (x : name) (p : list name) : option N :=
+  if falls_global en x then match resolve W x p with Some (Some o) => Some o | _ => None end else None.
+
 (* ------------------------------------------------------------------ expressions: semantics *)
 
 Inductive res := ROk | RExc | RName.
 
-Inductive eval (ns : list name) : env -> expr -> res -> Prop :=
-| EvLoadOk en x : lookup_ok ns en x = true -> eval ns en (ELoad x) ROk
-| EvLoadBad en x : lookup_ok ns en x = false -> eval ns en (ELoad x) RName
-| EvNil en : eval ns en ENil ROk
-| EvRaise en e : eval ns en e RExc
-| EvConsL en e1 e2 r : eval ns en e1 r -> eval ns en (ECons e1 e2) r
-| EvConsR en e1 e2 r : eval ns en e2 r -> eval ns en (ECons e1 e2) r
-| EvConsB en e1 e2 r : eval ns en e1 ROk -> eval ns en e2 r -> eval ns en (ECons e1 e2) r
-| EvCompF en e c r : eval ns en e r -> eval ns en (EComp e c) r
-| EvComp en e c r : eval ns en e ROk ->
-    evalc ns (mkF true (ctargets c) [] :: en) c r -> eval ns en (EComp e c) r
-with evalc (ns : list name) : env -> comp -> res -> Prop :=
-| EcStop en c : evalc ns en c ROk
-| EcRaise en c : evalc ns en c RExc
-| EcBind en xs c r : evalc ns (bind_top xs en) c r -> evalc ns en (CBind xs c) r
-| EcEvalF en e c r : eval ns en e r -> evalc ns en (CEval e c) r
-| EcEval en e c r : eval ns en e ROk -> evalc ns en c r -> evalc ns en (CEval e c) r.
+Inductive eval (ns : list name) (W : world) : env -> expr -> res -> Prop :=
+| EvLoadOk en x : lookup_ok ns en x = true -> eval ns W en (ELoad x) ROk
+| EvLoadBad en x : lookup_ok ns en x = false -> eval ns W en (ELoad x) RName
+| EvAttrUnres en x p : lookup_ok ns en x = false -> eval ns W en (EAttr x p) RName
+| EvAttrLocal en x p : lookup_ok ns en x = true -> falls_global en x = false -> eval ns W en (EAttr x p) ROk
+| EvAttrGlob en x p : lookup_ok ns en x = true -> falls_global en x = true -> chain_ok W x p = true ->
+    eval ns W en (EAttr x p) ROk
+| EvAttrBad en x p : lookup_ok ns en x = true -> falls_global en x = true -> chain_ok W x p = false ->
+    eval ns W en (EAttr x p) RName          (* AttributeError on a module / class / holder *)
+| EvNil en : eval ns W en ENil ROk
+| EvRaise en e : eval ns W en e RExc
+| EvConsL en e1 e2 r : eval ns W en e1 r -> eval ns W en (ECons e1 e2) r
+| EvConsR en e1 e2 r : eval ns W en e2 r -> eval ns W en (ECons e1 e2) r
+| EvConsB en e1 e2 r : eval ns W en e1 ROk -> eval ns W en e2 r -> eval ns W en (ECons e1 e2) r
+| EvCompF en e c r : eval ns W en e r -> eval ns W en (EComp e c) r
+| EvComp en e c r : eval ns W en e ROk ->
+    evalc ns W (mkF true (ctargets c) [] :: en) c r -> eval ns W en (EComp e c) r
+with evalc (ns : list name) (W : world) : env -> comp -> res -> Prop :=
+| EcStop en c : evalc ns W en c ROk
+| EcRaise en c : evalc ns W en c RExc
+| EcBind en xs c r : evalc ns W (bind_top xs en) c r -> evalc ns W en (CBind xs c) r
+| EcEvalF en e c r : eval ns W en e r -> evalc ns W en (CEval e c) r
+| EcEval en e c r : eval ns W en e ROk -> evalc ns W en c r -> evalc ns W en (CEval e c) r.
 
 Scheme eval_ind2 := Minimality for eval Sort Prop
   with evalc_ind2 := Minimality for evalc Sort Prop.
@@ -144,18 +205,19 @@ Combined Scheme eval_evalc_ind from eval_ind2, evalc_ind2.
 
 (* ------------------------------------------------------------------ expressions: analysis *)
 
-Fixpoint chk_expr (ns : list name) (en : env) (e : expr) : bool :=
+Fixpoint chk_expr (ns : list name) (W : world) (en : env) (e : expr) : bool :=
   match e with
   | ELoad x => lookup_ok ns en x
+  | EAttr x p => lookup_ok ns en x && (negb (falls_global en x) || chain_ok W x p)
   | ENil => true
-  | ECons a b => chk_expr ns en a && chk_expr ns en b
-  | EComp a c => chk_expr ns en a && chk_comp ns (mkF true (ctargets c) [] :: en) c
+  | ECons a b => chk_expr ns W en a && chk_expr ns W en b
+  | EComp a c => chk_expr ns W en a && chk_comp ns W (mkF true (ctargets c) [] :: en) c
   end
-with chk_comp (ns : list name) (en : env) (c : comp) : bool :=
+with chk_comp (ns : list name) (W : world) (en : env) (c : comp) : bool :=
   match c with
   | CEnd => true
-  | CBind xs c' => chk_comp ns (bind_top xs en) c'
-  | CEval e c' => chk_expr ns en e && chk_comp ns en c'
+  | CBind xs c' => chk_comp ns W (bind_top xs en) c'
+  | CEval e c' => chk_expr ns W en e && chk_comp ns W en c'
   end.
 
 Definition frame_le (fd fb : frame) : Prop :=
@@ -185,28 +247,50 @@ Qed.
 Lemma env_le_push f ed eb : env_le ed eb -> env_le (f :: ed) (f :: eb).
 Proof. intros H. constructor; [repeat split; apply incl_refl | exact H]. Qed.
 
-Lemma chk_expr_sound_both ns :
-  (forall eb e r, eval ns eb e r ->
-     forall ed, env_le ed eb -> chk_expr ns ed e = true -> r <> RName) /\
-  (forall eb c r, evalc ns eb c r ->
-     forall ed, env_le ed eb -> chk_comp ns ed c = true -> r <> RName).
+Lemma falls_global_anti ed eb x :
+  env_le ed eb -> falls_global eb x = true -> falls_global ed x = true.
 Proof.
-  apply eval_evalc_ind; intros; simpl in *; try discriminate.
-  - (* EvLoadBad *)
-    rewrite (lookup_mono _ _ _ _ H0 H1) in H. discriminate.
-  - apply andb_true_iff in H2 as [A B]. eauto.
-  - apply andb_true_iff in H2 as [A B]. eauto.
-  - apply andb_true_iff in H4 as [A B]. eauto.
-  - apply andb_true_iff in H2 as [A B]. eauto.
-  - apply andb_true_iff in H4 as [A B]. eapply H2; [| exact B]. apply env_le_push. assumption.
-  - eapply H0; [| exact H2]. apply env_le_bind. assumption.
-  - apply andb_true_iff in H2 as [A B]. eauto.
-  - apply andb_true_iff in H4 as [A B]. eauto.
+  unfold falls_global. induction 1 as [| fd fb ed eb (Hs & Hd & Hb) _ IH]; simpl; [auto|].
+  intros H. apply andb_true_iff in H as [H1 H2]. apply andb_true_iff in H1 as [Hb1 Hs1].
+  rewrite (IH H2), andb_true_r. rewrite Hs, Hd, Hs1, andb_true_r.
+  apply negb_true_iff. apply negb_true_iff in Hb1.
+  apply mem_false. intro HI. apply Hb in HI. apply mem_In in HI. congruence.
 Qed.
 
-Lemma chk_expr_sound ns ed eb e r :
-  chk_expr ns ed e = true -> env_le ed eb -> eval ns eb e r -> r <> RName.
-Proof. intros. eapply (proj1 (chk_expr_sound_both ns)); eauto. Qed.
+Lemma chk_expr_sound_both ns W :
+  (forall eb e r, eval ns W eb e r ->
+     forall ed, env_le ed eb -> chk_expr ns W ed e = true -> r <> RName) /\
+  (forall eb c r, evalc ns W eb c r ->
+     forall ed, env_le ed eb -> chk_comp ns W ed c = true -> r <> RName).
+Proof.
+  apply eval_evalc_ind.
+  - (* EvLoadOk *) intros; discriminate.
+  - (* EvLoadBad *) intros en x H ed Hle C. simpl in C.
+    rewrite (lookup_mono _ _ _ _ Hle C) in H. discriminate.
+  - (* EvAttrUnres *) intros en x p H ed Hle C. simpl in C. apply andb_true_iff in C as [C _].
+    rewrite (lookup_mono _ _ _ _ Hle C) in H. discriminate.
+  - (* EvAttrLocal *) intros; discriminate.
+  - (* EvAttrGlob *) intros; discriminate.
+  - (* EvAttrBad *) intros en x p _ Hf Hc ed Hle C. simpl in C. apply andb_true_iff in C as [_ C].
+    rewrite (falls_global_anti _ _ _ Hle Hf) in C. simpl in C. congruence.
+  - (* EvNil *) intros; discriminate.
+  - (* EvRaise *) intros; discriminate.
+  - (* EvConsL *) intros en e1 e2 r _ IH ed Hle C. simpl in C. apply andb_true_iff in C as [A B]. eauto.
+  - (* EvConsR *) intros en e1 e2 r _ IH ed Hle C. simpl in C. apply andb_true_iff in C as [A B]. eauto.
+  - (* EvConsB *) intros en e1 e2 r _ _ _ IH ed Hle C. simpl in C. apply andb_true_iff in C as [A B]. eauto.
+  - (* EvCompF *) intros en e c r _ IH ed Hle C. simpl in C. apply andb_true_iff in C as [A B]. eauto.
+  - (* EvComp *) intros en e c r _ _ _ IH ed Hle C. simpl in C. apply andb_true_iff in C as [A B].
+    eapply IH; [| exact B]. apply env_le_push. assumption.
+  - (* EcStop *) intros; discriminate.
+  - (* EcRaise *) intros; discriminate.
+  - (* EcBind *) intros en xs c r _ IH ed Hle C. simpl in C. eapply IH; [| exact C]. apply env_le_bind. assumption.
+  - (* EcEvalF *) intros en e c r _ IH ed Hle C. simpl in C. apply andb_true_iff in C as [A B]. eauto.
+  - (* EcEval *) intros en e c r _ _ _ IH ed Hle C. simpl in C. apply andb_true_iff in C as [A B]. eauto.
+Qed.
+
+Lemma chk_expr_sound ns W ed eb e r :
+  chk_expr ns W ed e = true -> env_le ed eb -> eval ns W eb e r -> r <> RName.
+Proof. intros. eapply (proj1 (chk_expr_sound_both ns W)); eauto. Qed.
 
 (* ------------------------------------------------------------------ statements: semantics *)
 
@@ -243,6 +327,7 @@ Section Exec.
   Variable st : bool.              (* strict frame (function) or LOAD_NAME frame (module level) *)
   Variable dc : list name.         (* the function's local names *)
   Variable ns : list name.         (* globals + builtins (+ pre-existing locals dict at module level) *)
+  Variable W : world.              (* the objects those names are bound to, with their attribute tables *)
 
   Definition fenv (B : list name) : env := [mkF st dc B].
 
@@ -250,18 +335,18 @@ Section Exec.
   | XPass B : exec SPass B (ONorm B)
   | XBreak B : exec SBreak B (OBrk B)
   | XCont B : exec SContinue B (OCont B)
-  | XExpr B e r : eval ns (fenv B) e r -> exec (SExpr e) B (lift r B (ONorm B))
-  | XAssign B xs e r : eval ns (fenv B) e r -> exec (SAssign xs e) B (lift r B (ONorm (xs ++ B)))
-  | XAssignExc B xs e S : eval ns (fenv B) e ROk -> incl S xs -> exec (SAssign xs e) B (OExc (S ++ B))
-  | XReturn B e r : eval ns (fenv B) e r -> exec (SReturn e) B (lift r B (ORet B))
-  | XRaise B e r : eval ns (fenv B) e r -> exec (SRaise e) B (lift r B (OExc B))
+  | XExpr B e r : eval ns W (fenv B) e r -> exec (SExpr e) B (lift r B (ONorm B))
+  | XAssign B xs e r : eval ns W (fenv B) e r -> exec (SAssign xs e) B (lift r B (ONorm (xs ++ B)))
+  | XAssignExc B xs e S : eval ns W (fenv B) e ROk -> incl S xs -> exec (SAssign xs e) B (OExc (S ++ B))
+  | XReturn B e r : eval ns W (fenv B) e r -> exec (SReturn e) B (lift r B (ORet B))
+  | XRaise B e r : eval ns W (fenv B) e r -> exec (SRaise e) B (lift r B (OExc B))
   | XSeq B s1 s2 B1 o : exec s1 B (ONorm B1) -> exec s2 B1 o -> exec (SSeq s1 s2) B o
   | XSeqStop B s1 s2 o : exec s1 B o -> (forall B1, o <> ONorm B1) -> exec (SSeq s1 s2) B o
-  | XIfBad B e s1 s2 r : eval ns (fenv B) e r -> r <> ROk -> exec (SIf e s1 s2) B (lift r B (ONorm B))
-  | XIf1 B e s1 s2 o : eval ns (fenv B) e ROk -> exec s1 B o -> exec (SIf e s1 s2) B o
-  | XIf2 B e s1 s2 o : eval ns (fenv B) e ROk -> exec s2 B o -> exec (SIf e s1 s2) B o
-  | XForBad B xs e b el r : eval ns (fenv B) e r -> r <> ROk -> exec (SFor xs e b el) B (lift r B (ONorm B))
-  | XFor B xs e b el o : eval ns (fenv B) e ROk -> loop xs b el B o -> exec (SFor xs e b el) B o
+  | XIfBad B e s1 s2 r : eval ns W (fenv B) e r -> r <> ROk -> exec (SIf e s1 s2) B (lift r B (ONorm B))
+  | XIf1 B e s1 s2 o : eval ns W (fenv B) e ROk -> exec s1 B o -> exec (SIf e s1 s2) B o
+  | XIf2 B e s1 s2 o : eval ns W (fenv B) e ROk -> exec s2 B o -> exec (SIf e s1 s2) B o
+  | XForBad B xs e b el r : eval ns W (fenv B) e r -> r <> ROk -> exec (SFor xs e b el) B (lift r B (ONorm B))
+  | XFor B xs e b el o : eval ns W (fenv B) e ROk -> loop xs b el B o -> exec (SFor xs e b el) B o
   | XTryExc B b hs el fi B1 o2 o : exec b B (OExc B1) -> exec_h hs B1 o2 -> fin fi o2 o -> exec (STry b hs el fi) B o
   | XTryNorm B b hs el fi B1 o2 o : exec b B (ONorm B1) -> exec el B1 o2 -> fin fi o2 o -> exec (STry b hs el fi) B o
   | XTryPass B b hs el fi o1 o : exec b B o1 -> passes o1 -> fin fi o1 o -> exec (STry b hs el fi) B o
@@ -275,9 +360,9 @@ Section Exec.
   | LAbrupt xs b el B o : exec b (xs ++ B) o -> abrupt o -> loop xs b el B o
   with exec_h : handlers -> list name -> out -> Prop :=
   | HNone B : exec_h HNil B (OExc B)                                           (* no handler matches *)
-  | HTyBad ty asn b rest B r : eval ns (fenv B) ty r -> r <> ROk -> exec_h (HCons ty asn b rest) B (lift r B (ONorm B))
-  | HSkip ty asn b rest B o : eval ns (fenv B) ty ROk -> exec_h rest B o -> exec_h (HCons ty asn b rest) B o
-  | HMatch ty asn b rest B o : eval ns (fenv B) ty ROk -> exec b (optbind asn B) o ->
+  | HTyBad ty asn b rest B r : eval ns W (fenv B) ty r -> r <> ROk -> exec_h (HCons ty asn b rest) B (lift r B (ONorm B))
+  | HSkip ty asn b rest B o : eval ns W (fenv B) ty ROk -> exec_h rest B o -> exec_h (HCons ty asn b rest) B o
+  | HMatch ty asn b rest B o : eval ns W (fenv B) ty ROk -> exec b (optbind asn B) o ->
       exec_h (HCons ty asn b rest) B (map_state (unbind asn) o)
   with fin : stmt -> out -> out -> Prop :=
   | FinName fi : fin fi OName OName
@@ -335,8 +420,9 @@ Section Chk.
   Variable st : bool.
   Variable dc : list name.
   Variable ns : list name.
+  Variable W : world.
 
-  Definition ce (D : list name) (e : expr) : bool := chk_expr ns [mkF st dc D] e.
+  Definition ce (D : list name) (e : expr) : bool := chk_expr ns W [mkF st dc D] e.
 
   (* None: rejected.  Some None: accepted, cannot complete normally.
      Some (Some D'): accepted, D' is bound after normal completion. *)
